@@ -65,6 +65,11 @@ def cases(tier):
                 for pos in (0, n // 2, n):
                     out.append({"t": "convex2-interior", "cls": cls, "poly": [list(p) for p in c], "kind": kind, "pos": pos, "pl": PL3[k % 8]})
             k += 1
+        # the invalid set in EVERY order (a cycle that winds twice turns the same way at every vertex)
+        if n <= 4 and (not q or i % 10 == 0):
+            for o in itertools.permutations(range(n + 1)):
+                out.append({"t": "convex2-interior", "cls": "ConvexPolygon" if (sum(o[:2]) % 2 == 0) else "ConvexSpheropolygon", "poly": [list(p) for p in c], "kind": "centroid", "pos": n, "order": list(o), "pl": PL3[k % 8]})
+                k += 1
     pq = A.placements_quick()
     for kk, step in ((4, 6 if q else 1), (5, 30 if q else 5)):
         for i, S in enumerate(A.s3(kk)):
@@ -80,6 +85,10 @@ def cases(tier):
                     for cls in ("ConvexPolyhedron", "ConvexSpheropolyhedron"):
                         out.append({"t": "convex3-interior", "cls": cls, "pts": S, "kind": kind, "pos": pos, "pl": pq[k % 8]})
                 k += 1
+            if kk == 4 and i % (60 if q else 12) == 0:
+                for o in itertools.permutations(range(5)):
+                    out.append({"t": "convex3-interior", "cls": "ConvexPolyhedron", "pts": S, "kind": "mean", "pos": kk, "order": list(o), "pl": pq[k % 8]})
+                    k += 1
     for cls, nax in (("Circle", 1), ("Sphere", 1), ("Ellipse", 2), ("Ellipsoid", 3)):
         for bad in (0.0, -1.0, -1e-12, float("nan")):
             for where in range(nax):
@@ -229,6 +238,8 @@ def run_case(case):
             extra = (mid[0] + 2e-3 * Llat * inward[0], mid[1] + 2e-3 * Llat * inward[1])
         pts = list(poly)
         pts.insert(case["pos"], extra)
+        if case.get("order"):
+            pts = [pts[i] for i in case["order"]]
         F, s, R, tt = place(case, pts)
         expect_value_error(rep, case["cls"], "interior-point-" + case["kind"], case, lambda: cls(F.copy(), *args))
         return rep
@@ -267,6 +278,8 @@ def run_case(case):
             rep.skip("interior-point-too-shallow")
             return rep
         pts = np.vstack([base[: case["pos"]], extra[None], base[case["pos"] :]])
+        if case.get("order"):
+            pts = pts[case["order"]]
         F = A.apply_placement(case["pl"], pts)
         args = (0.2,) if case["cls"] == "ConvexSpheropolyhedron" else ()
         expect_value_error(rep, case["cls"], "interior-point-" + case["kind"], case, lambda: getattr(S, case["cls"])(F.copy(), *args))
